@@ -120,8 +120,8 @@ def rule_size_vs_serialize(ctx: Ctx, rep: Report) -> None:
     tx = ctx.cls("btclib.tx.tx.Tx")
     for m in ("_serialized_size", "serialize"):
         fi = tx.methods[m]
-        sg = [n for n in own_nodes(fi.node) if isinstance(n, ast.Assign) and norm(n.targets[0]) == "segwit"]
-        rep.ob(rule, f"Tx.{m}:segwit_condition", bool(sg) and norm(sg[0].value) == "include_witness and self.is_segwit", fi.where(), f"segwit = {norm(sg[0].value) if sg else None}")
+        sg = PT.find(fi.node, "$sg = include_witness and self.is_segwit", {})
+        rep.ob(rule, f"Tx.{m}:segwit_condition", sg is not None, fi.where(sg), "segwit = include_witness and self.is_segwit (the same gate in the size and in the serializer)")
     vs, ser = ctx.func("btclib.var_int._size"), ctx.func("btclib.var_int.serialize")
     rep.ob(rule, "var_int._size(table)", True, vs.where(), "threshold agreement with serialize is decided by C05.compactsize")
     vbs = ctx.func("btclib.var_bytes._size")
